@@ -1103,6 +1103,11 @@ def C11(run):
             d['lines'] = [(m, r) for m, r in d['lines'] if r]
             dnames = {g[c]: names[c] for c in keep}
             items.append(('withdrawn', gen.blt(p, names), gen.blt(d, dnames), o)); meta.append((p, o, 'withdrawn'))
+    # exemplar of finding G2 for this property (kept in KNOWN_FINDINGS.json): renumbering changes the order in which the builtin min() meets
+    # tallies that are within Guarded's tolerance of each other
+    g2 = findings.exemplar('G2', 'C11')
+    if g2:
+        items.append(('renumber', g2['text'], g2['transformed_text'], g2['options'])); meta.append((g2['profile'], g2['options'], 'renumber'))
     res = common.pmap(_neutral, items, limit=30.0)
     stats = collections.Counter(); nb = 0
     for (p, o, kind), it, r in zip(meta, items, res):
@@ -1110,6 +1115,8 @@ def C11(run):
         if r[0] == 'bad':
             if findings.meek_collapse_class(p, o):
                 run.known('M2', findings_text('M2')); continue
+            if kind == 'renumber' and findings.coarse_guarded(o) and o['rule'] not in ('meek', 'warren', 'meek-prf'):
+                run.known('G2', findings_text('G2')); continue
             nb += 1
             if nb <= 3:
                 run.violation(dict(kind='implementation', what='%s: %s' % (kind, r[1]), options=o, text=it[1], transformed_text=it[2]))
